@@ -2521,6 +2521,21 @@ fn run_serde(case: &Value) -> Value {
         ],
     );
     let _ = t2;
+    // the typed values through their derived Debug (independent of the Serialize impls under test)
+    let dbg = |s: &Store| format!("{:?}\n{:?}\n{:?}", s.config, s.audits, s.imports);
+    let policies = |s: &Store| -> Vec<Value> {
+        s.config
+            .policy
+            .iter()
+            .map(|(n, v, e)| json!([n, v.map(|v| v.to_string()), format!("{e:?}")]))
+            .collect()
+    };
+    let debug_equal = match &r1b {
+        Ok(s1) => Some(dbg(&s0) == dbg(s1)),
+        Err(_) => None,
+    };
+    let policies_before = policies(&s0);
+    let policies_after = r1b.as_ref().ok().map(policies);
     // typed fields of every entry next to what the real Serialize impl makes of it, for
     // the comparison with the model's encoding layer
     let strs = |l: &Vec<crate::serialization::spanned::Spanned<String>>| -> Value {
@@ -2555,7 +2570,8 @@ fn run_serde(case: &Value) -> Value {
         entries.push(json!({"type": "exemption", "typed": {"version": e.version.to_string(), "criteria": strs(&e.criteria),
             "suggest": e.suggest, "notes": e.notes}, "json": serde_json::to_value(e).unwrap_or(Value::Null)}));
     }
-    json!({"status": "ok", "obs": obs, "entries": entries, "written": {"config": t1["config.toml"], "audits": t1["audits.toml"], "imports": t1["imports.lock"]},
+    json!({"status": "ok", "obs": obs, "entries": entries, "debug_equal": debug_equal,
+           "policies_before": policies_before, "policies_after": policies_after, "written": {"config": t1["config.toml"], "audits": t1["audits.toml"], "imports": t1["imports.lock"]},
            "values": store_json(&s0), "values_reread": r1b.as_ref().ok().map(store_json)})
 }
 
